@@ -145,8 +145,8 @@ class Interp:
             else: flag = self.scope[t.value.id][idx[0]]
             return self.ev(e.body if flag else e.orelse, idx)
         if isinstance(e, ast.Call):
-            f = self.scope[e.func.id]; arg = e.args[0]
-            if isinstance(arg, ast.Constant) and isinstance(arg.value, str):
-                return f(("series", arg.value), idx)
-            return f(self.ev(arg, idx), idx)
+            f = self.scope[e.func.id]
+            # the arguments in the order they are written: a series name is handed over as the series, anything else as its value at `idx`
+            args = [("series", a.value) if isinstance(a, ast.Constant) and isinstance(a.value, str) else self.ev(a, idx) for a in e.args]
+            return f(*args, idx)
         raise NotImplementedError(ast.dump(e))
